@@ -1,0 +1,37 @@
+//go:build verif
+// +build verif
+
+package gen
+
+// Machine-checked contracts for gvc (see /verif/DESIGN.md). Comment-only file:
+// no executable code, excluded from every normal build.
+
+//@ spec plugin.smt2
+
+//@ contract addFile
+//@   props C17
+//@   maypanic a nil destination map panics on insertion
+//@   modifies mapof(dest)
+//@   ensures(conflict) (err != nil) <==> old(has(dest, path))
+//@   ensures(added) err == nil ==> has(dest, path)
+//@   ensures(kept) forall(k, Str, old(has(dest, k)) ==> has(dest, k))
+//@   ensures(only) forall(k, Str, has(dest, k) && k != path ==> old(has(dest, k)))
+//@   ensures(noclobber) err != nil ==> forall(k, Str, has(dest, k) <==> old(has(dest, k)))
+
+//@ contract mergeFiles
+//@   props C17
+//@   let ok = dest != nil && ref(dest) != ref(src)
+//@   modifies mapof(dest)
+//@   loop 1: invariant ok ==> forall(k, Str, old(has(dest, k)) ==> has(dest, k))
+//@   loop 1: invariant ok ==> forall(k, Str, visited(k) && old(has(dest, k)) ==> err != nil)
+//@   loop 1: invariant ok ==> forall(k, Str, has(dest, k) ==> old(has(dest, k)) || has(src, k))
+//@   ensures(conflict) ok && (exists(k, Str, has(src, k) && old(has(dest, k)))) ==> result != nil
+//@   ensures(kept) ok ==> forall(k, Str, old(has(dest, k)) ==> has(dest, k))
+//@   ensures(sources) ok ==> forall(k, Str, has(dest, k) ==> old(has(dest, k)) || has(src, k))
+
+// All-or-nothing (C17): unless a file-system call of the write loop itself
+// failed, an error return means nothing was written.
+//@ contract Generate
+//@   props C17
+//@   requires !fsfailed(nil) && m != nil && o != nil
+//@   ensures(allornothing) err != nil && !fsfailed(nil) ==> fswrites(nil) == old(fswrites(nil))
